@@ -134,6 +134,29 @@ func genVideoNoise(r *engine.Rand, sc *engine.Scenario, total uint64, n int, ext
 		}
 		sc.Events = append(sc.Events, ev)
 	}
+	{
+		// LCDC rewritten (LCD left on) within the first line after the LCD came on - at power-on and after
+		// every switch-on of the schedule: the shortened first line stays shortened
+		var ons []uint64
+		if r.Chance(1, 3) {
+			ons = append(ons, 0)
+		}
+		was := true
+		for _, e := range sc.Events {
+			if e.A == 0xff40 && e.S != "keep" {
+				now := e.V&0x80 != 0
+				if now && !was && r.Chance(1, 2) {
+					ons = append(ons, e.At)
+				}
+				was = now
+			}
+		}
+		for _, t := range ons {
+			if at := t + uint64(r.Range(1, 70)); at < total {
+				sc.Events = append(sc.Events, engine.Event{At: at, K: "bus_w", A: 0xff40, V: r.Byte(), S: "keep"})
+			}
+		}
+	}
 	if r.Chance(1, 3) {
 		for i, k := 0, r.Range(1, 3); i < k; i++ {
 			if at := lineStartBoundary(r); at < total {
